@@ -935,8 +935,10 @@ def _fetch_once(c, ctx):
                         d["records"] = data
                         if ver >= 4 and iso == 1:
                             last = sel[-1].last_offset
+                            # the broker's transaction index is appended when the abort marker is written:
+                            # entries come in marker order, not in first-offset order
                             d["aborted"] = [{"producer_id": a[0], "first_offset": a[1]}
-                                            for a in sorted(pl.aborted, key=lambda a: a[1])
+                                            for a in sorted(pl.aborted, key=lambda a: a[2])
                                             if a[2] >= off and a[1] <= last]
                     ctx.arrival.extra.setdefault("served", []).append(
                         (t["topic"], p["partition"], off, [sb.base_offset for sb in sel]))
